@@ -39,25 +39,25 @@ type FieldInfo struct {
 
 // World is everything loaded from /repo plus contracts.
 type World struct {
-	Fset    *token.FileSet
-	Pkgs    map[string]*packages.Package // by package path
-	Main    []*packages.Package          // the repository packages
-	Funcs   map[string]*FuncInfo
-	ByObj   map[*types.Func]*FuncInfo
-	Fields  map[string]*FieldInfo
-	FieldOrder []string
-	CS      *ContractSet
-	BG      *Background
-	Specs   map[string]*SpecFn
-	GhostVars map[string]*FieldInfo // ghost globals, key "$g.name"
-	Globals map[types.Object]*Term
-	TypeConsts map[string]bool
-	Errors  []string
-	Tags    string
-	structKeys map[*types.Named]string
-	wfReads    map[string]bool
+	Fset          *token.FileSet
+	Pkgs          map[string]*packages.Package // by package path
+	Main          []*packages.Package          // the repository packages
+	Funcs         map[string]*FuncInfo
+	ByObj         map[*types.Func]*FuncInfo
+	Fields        map[string]*FieldInfo
+	FieldOrder    []string
+	CS            *ContractSet
+	BG            *Background
+	Specs         map[string]*SpecFn
+	GhostVars     map[string]*FieldInfo // ghost globals, key "$g.name"
+	Globals       map[types.Object]*Term
+	TypeConsts    map[string]bool
+	Errors        []string
+	Tags          string
+	structKeys    map[*types.Named]string
+	wfReads       map[string]bool
 	TrustedAxioms []string
-	reach      map[string]map[string]bool
+	reach         map[string]map[string]bool
 }
 
 func pkgShort(p *types.Package) string {
